@@ -21,6 +21,53 @@ CHECKS = {
     ),
 }
 
+NOTE_COMMON = ("Trusted: Coq 8.16.1 kernel (vm_compute for case files / finite tables, no native_compute, no axioms: Print Assumptions of every "
+               "theorem is recorded in the evidence); the translators under tools/translate; NumPy/pandas as oracles; exact arithmetic on "
+               "exactly representable data (float rounding not modelled); third-party kernels (numpy_groupies, numbagg, dask) are modelled, "
+               "not verified: their models are validated by the correspondence on every run. ")
+CHECKS.update({
+    "C02": ("proof",
+            "Coq theorems: cutting the axis into blocks of ANY sizes partitions each group's members; for every blueprint of the regenerated "
+            "registry the simple combine and the grouped combine over ANY reduction tree give the block functions on all members followed by the "
+            "same finalize/mask (hence independence of chunking and tree, simple = grouped when the group occurs). Tie: groupby_reduce on dask vs "
+            "eager on the same data, vs NumPy and vs the Coq pipeline model, all compositions of small axes x method x reindex.",
+            NOTE_COMMON + "dask's blockwise/_tree_reduce are modelled by a tree of blocks (structure checked by C03's K4).",
+            "Coq proof (list homomorphism over arbitrary trees/chunkings) + differential correspondence", "5 C02"),
+    "C03": ("proof",
+            "Coq theorems: any two reduction trees with the same leaves give the same result (simple and grouped combine); the level-by-level "
+            "tree builder covers blocks 0..n-1 in order for every split_every; any two valid schedules of a graph of pure tasks (any order, "
+            "re-execution allowed) agree on every key. Tie: K4 compares the tree actually evaluated by dask's and flox's _tree_reduce with the "
+            "Coq builder for every (n, split_every); K5 runs sync/threaded/random-order schedulers with re-execution.",
+            NOTE_COMMON + "Real thread interleavings are outside Coq: the executor theorem assumes task atomicity and purity (C13).",
+            "Coq proof (tree law, executor confluence) + graph-structure correspondence", "5 C03"),
+    "C05": ("proof",
+            "Coq theorems on the factorisation model and the pipeline: one slot per requested label, labels returned = request (sorted / as "
+            "given), slot k holds exactly the elements labelled with the k-th label, missing/unrequested labels get code -1, min_count mask "
+            "applied on the exact valid count with the user's fill verbatim in every plan. Tie: K3 over expected superset/subset/disjoint x fills x "
+            "min_counts x engines x plans with the model factorising the raw labels itself.",
+            NOTE_COMMON + "Known finding KF01 (explicit min_count=0 with an absent label) is excluded by hypothesis and reported as KNOWN-FINDING.",
+            "Coq proof (factorisation + mask lemmas) + differential correspondence", "5 C05"),
+    "C09": ("proof",
+            "Executable Coq model of find_group_cohorts (incidence, exact cohorts, preference rules, containment merging with Python's dict "
+            "overwrite and the asserts) with theorems: incidence exact, exact cohorts partition the present labels with exactly their block sets. "
+            "Tie: exact K2 correspondence (method, cohorts, order) on all small 1-D layouts x chunkings x merge + random 2-D / dense layouts; each real "
+            "answer also checked against the soundness predicates; provenance sums (2**i) and dependency closures of real graphs.",
+            NOTE_COMMON + "The merging branch is covered by correspondence + run-time soundness predicates; its Coq invariant proof is partial.",
+            "Coq model + proof (planner soundness) + exhaustive small-scope correspondence", "5 C09"),
+    "C16": ("proof",
+            "Coq theorems: sort=True labels strictly ascending (no duplicates), sort=False labels = request / first appearance, both label sets are "
+            "permutations of each other, discovered labels exact, and the label->members pairing is independent of sort. Tie: K3 sequences "
+            "(labels and values in order) vs NumPy and vs the Coq model over sort x expected kinds x plans.",
+            NOTE_COMMON, "Coq proof (sorting/permutation/factorisation) + differential correspondence", "5 C16"),
+    "C17": ("proof",
+            "Executable Coq models of _get_optimal_chunks_for_groups and of rechunk_for_cohorts' division loop with theorems for ALL inputs: new "
+            "chunks positive and summing to the axis length, forced labels start chunks, old boundaries kept. Tie: exact K2 correspondence on all "
+            "sequential label sequences of total <=7 (9 thorough) x all chunkings + random patterns; postconditions checked on the real results; "
+            "array/xarray flavours keep values/metadata and method='blockwise' on the result is exact.",
+            NOTE_COMMON + "dask's rechunk is modelled as the identity on values (checked by K3).",
+            "Coq model + proof (loop invariants) + exhaustive small-scope correspondence", "5 C17"),
+})
+
 
 def main():
     checks, na = [], []
